@@ -134,6 +134,8 @@ pub struct CallRec {
     pub panic: Option<String>,
     /// Some(description) when the AccumulatingRuntime twin produced different effects
     pub twin_mismatch: Option<String>,
+    /// win_addr_conflict was called for identities with different addresses or for an identity against itself
+    pub conflict_contract_breaches: u64,
 }
 
 impl CallRec {
@@ -280,6 +282,7 @@ impl Node {
 
     pub fn call(&mut self, input: Input) -> CallRec {
         self.calls += 1;
+        let breaches0 = crate::id::conflict_contract_breaches();
         let mut rec = Rec::default();
         let h0 = self.hlog.borrow().calls.len();
         let foca = &mut self.foca;
@@ -317,6 +320,7 @@ impl Node {
         if self.hlog.borrow().calls.len() > 4096 {
             self.hlog.borrow_mut().calls.clear();
         }
+        let conflict_contract_breaches = crate::id::conflict_contract_breaches() - breaches0;
         let mut twin_mismatch = None;
         if panic.is_none() {
             if let Some((tf, rt)) = self.twin.as_mut() {
@@ -376,6 +380,6 @@ impl Node {
                 }
             }
         }
-        CallRec { input, result, fx: rec.fx, hcalls, panic, twin_mismatch }
+        CallRec { input, result, fx: rec.fx, hcalls, panic, twin_mismatch, conflict_contract_breaches }
     }
 }
